@@ -20,8 +20,19 @@ from .tlc import MachineryError, read_ndjson, run_tlc
 from .tracecheck import validate
 
 
+class InjectedKeyError(KeyError):
+    pass
+
+
+class InjectedAttributeError(AttributeError):
+    pass
+
+
+FAIL_KINDS = (InjectedError, InjectedKeyError, InjectedAttributeError)
+
+
 class CPSys:
-    def __init__(self, L, ntask, ninst, uselock, gsusp):
+    def __init__(self, L, ntask, ninst, uselock, gsusp, failkind=0):
         self.ntask, self.ninst, self.uselock, self.gsusp = ntask, ninst, uselock, gsusp
         self.acct = Accounting()
         self.trace = []
@@ -29,6 +40,7 @@ class CPSys:
         self.runs = 0
         self.fail_task = 0
         self.fail_exc = {}
+        self.fail_cls = FAIL_KINDS[failkind % len(FAIL_KINDS)]
         self.locks = []  # in creation order = placeholder order
         self.ph_ids = {}  # id(placeholder) -> model id, in order of discovery
         self.ph_keep = []
@@ -59,7 +71,7 @@ class CPSys:
                     await Suspend(sys_.acct, ("getter", t, j))
                 if sys_.fail_task and sys_.fail_task == sys_.current == t:
                     sys_.fail_task = 0
-                    sys_.fail_exc[t] = InjectedError("getter failed")
+                    sys_.fail_exc[t] = sys_.fail_cls("getter failed")
                     raise sys_.fail_exc[t]
                 ok = True
                 return ("val", r)
@@ -268,7 +280,7 @@ def norm(t, sysm):
 def replay_path(args):
     (ntask, ninst, uselock, gsusp, _md, _ops, _f), path = args
     L = tm.load_lib()
-    s = CPSys(L, ntask, ninst, uselock, gsusp)
+    s = CPSys(L, ntask, ninst, uselock, gsusp, failkind=len(path))
     drift = None
     for j, e in enumerate(path):
         a, t, i = e["a"]
@@ -295,7 +307,7 @@ def random_run(args):
     seed, ntask, ninst, uselock, gsusp = args
     rnd = random.Random(seed)
     L = tm.load_lib()
-    s = CPSys(L, ntask, ninst, uselock, gsusp)
+    s = CPSys(L, ntask, ninst, uselock, gsusp, failkind=seed)
     steps = []
     for _ in range(rnd.randint(6, 16 * ntask)):
         if rnd.random() < 0.06:
